@@ -41,6 +41,11 @@ var (
 // quantumOfFloat returns the exponent q of the format's spacing at |t|.
 func quantumOfFloat(t *big.Float) int {
 	at := new(big.Float).SetPrec(bigfl.Prec).Abs(t)
+	// the format's spacing changes at (Cmax+1)*10^q = 2^110*10^(q+1); a true result exactly on such a
+	// boundary (e.g. 0.04^55 = 2^110e-110) belongs to the coarser side, but the reference value may fall a
+	// hair below it. Inflating by far less than the reference's own uncertainty resolves that case to the
+	// coarser spacing, i.e. never to a stricter bound than the property states.
+	at.Mul(at, new(big.Float).SetPrec(bigfl.Prec).SetMantExp(big.NewFloat(1).SetPrec(bigfl.Prec).Add(big.NewFloat(1), new(big.Float).SetMantExp(big.NewFloat(1), -300)), 0))
 	e2 := at.MantExp(nil)
 	q := int(float64(e2)*0.30102999566) - 36
 	if q < ref.Emin {
